@@ -91,31 +91,31 @@ fn reencode_wire(w: &World, r: &mut Rng, b: &Bank, delay: usize) -> Option<Bank>
     let chan_byte = b.data[5];
     let mut wf = p.waveform().to_vec();
     let _ = w;
-    let data = match r.below(10) {
-        0..=4 => {
+    let data = match r.below(14) {
+        0..=8 => {
             extremes(r, &mut wf, delay);
             adc_long(mac, chan_byte, &wf, None, None)
         }
-        5 => {
+        9 => {
             // requested_samples at an extreme (the packet then usually no longer decodes)
             let req = r.pick(&[0u16, 1, 2, 511, 65535, (wf.len() + 1) as u16, (wf.len() + 3) as u16]);
             adc_long(mac, chan_byte, &wf, None, Some(req))
         }
-        6 => {
+        10 => {
             // truncated to the shortest legal waveforms / around the delay
             let n = r.pick(&[64usize, 65, delay.max(64) - 1, delay.max(64), delay.max(64) + 1]).min(wf.len());
             wf.truncate(n.max(64));
             extremes(r, &mut wf, delay);
             adc_long(mac, chan_byte, &wf, None, None)
         }
-        7 => {
+        11 => {
             // data suppression on, keep_last at its bounds
             let n = wf.len();
             let max_kl = ((n + 1) / 2 + 1) as u16;
             let kl = r.pick(&[34u16, max_kl, max_kl.saturating_sub(1), 0, 33, 0xFFF]);
-            adc_long(mac, chan_byte, &wf, Some(kl), Some(r.pick(&[(n + 2) as u16, 65535, 0])))
+            { let rq = r.pick(&[(n + 2) as u16, 65535, 0]); adc_long(mac, chan_byte, &wf, Some(kl), Some(rq)) }
         }
-        8 => adc_short(chan_byte, r.pick(&[0u16, 1, 511, 65535]), r.pick(&EXT)),
+        12 => { let rq = r.pick(&[0u16, 1, 511, 65535]); let bl = r.pick(&EXT); adc_short(chan_byte, rq, bl) }
         _ => {
             // longest waveform the 16-bit requested_samples allows for the bank (kept moderate)
             let mut big = vec![0i16; r.pick(&[509usize, 1000, 4000])];
@@ -289,9 +289,10 @@ pub fn run(tier: &str, seed: u64, s: &mut Sink) {
     for i in 0..n_sim {
         let (run, g) = if i % 3 == 2 { (11192u32, &g_real) } else { (u32::MAX, &g_sim) };
         let nt = if i % 2 == 0 { 11 + (i % 4) } else { 1 + (i % 4) };
-        let ev = sim_event(&w, g, &mut r, run, nt, r.pick(&[0i64, 3, 30]));
+        let noise = r.pick(&[0i64, 3, 30]);
+        let ev = sim_event(&w, g, &mut r, run, nt, noise);
         emit_tot(s, "simulated-tracks", ev.run, &ev.banks);
-        for _ in 0..3 {
+        for _ in 0..5 {
             let x = extreme_event(&w, &mut r, &ev);
             emit_tot(s, "simulated-tracks-reencoded-at-extremes", x.run, &x.banks);
         }
@@ -348,8 +349,10 @@ pub fn run(tier: &str, seed: u64, s: &mut Sink) {
             let chip = r.below(4) as u8;
             let nsamp = r.pick(&[0u16, 1, 101, 116, 511]);
             let mut banks = board_sweep_pads(&w, &mut r, b, chip, nsamp);
+            banks.pop(); // one TRG bank only (the wire sweep brings its own)
             // the sweep's samples cover the whole i16 range
-            banks.extend(board_sweep_wires(&w, &mut r, run, r.below(8) as usize));
+            let wb = r.below(8) as usize;
+            banks.extend(board_sweep_wires(&w, &mut r, run, wb));
             emit_tot(s, "all-79-channels", run, &banks);
         }
     }
